@@ -36,6 +36,10 @@ CHECKS = {
    text="The whole find_signal_assignments pass executed symbolically from MIR on harness-built IR: <=2 (thorough 3) statements whose kind (<--, <==, ===, local =), assigned signal, expression shape and rhs degree knowledge (unknown or any range) are symbolic, all definition types; variable-use caches filled by the real cache_variable_use. Decided: one finding per `<--` statement and none otherwise, none for functions/custom templates, each anchored at its statement and naming the assigned signal, `unnecessary` iff the rhs degree is known and at most quadratic, otherwise `signal assignment` whose secondary locations are exactly the constraints mentioning the signal. Counterexamples are replayed through the real parser/lifter/passes on generated source.",
    note=TB + "Partial: tuple / anonymous-component desugaring and IR lifting are outside (statements are built in IR form); array-element and component-port targets are outside the bound.",
    ref="DESIGN.md §3 C08"),
+ 'C10': dict(
+   text="Partial. (scope) ensure_unique_variables with its DeclarationEnvironment and the scoped RawEnvironment executed from MIR on every program of <=4 (thorough 5) items - declarations, reads and assignments of two names (one also a parameter) in arbitrarily nested blocks; the program index is a solver variable: after renaming all declarations carry distinct names, every use carries the name of the innermost preceding visible declaration (textbook block-scoping oracle), and a shadowing report is produced for exactly the redeclarations of a visible name with the shadowed declaration as secondary location. (keys) the SSA version environment with SYMBOLIC identifier strings: the solver searches for two different (name, suffix) pairs sharing a version counter (e.g. `x`+suffix `0` vs `x_0`); fresh versions; scope exit restores the version current at entry. (split) `name` / `name.N` are split back into name and suffix.",
+   note=TB + "Outside: the statement/expression traversal of ssa_impl.rs that applies the keys, for-loop scoping as produced by the parser, longer identifiers, repeated parameter names.",
+   ref="DESIGN.md §3 C10"),
  'C11': dict(
    text="The real code from MIR with symbolic inputs: (a) primes and bit sizes for a symbolic curve; (b) Curve::from_str on every ASCII string of length 0..10; (c) the two template tables equal the table in doc/analysis_passes.md and find_bn254_specific_circuits flags `c = Name(x)` iff the documented table marks (name, curve), for the 26 names plus near misses and a symbolic curve; (d) find_nonstrict_binary_conversion flags Num2Bits/Bits2Num unless BN254/template/component with a known size n < 254, for ALL integers n; (e) the whole find_unconstrained_less_than pass on a 4-statement IR: an input counts as range-checked by Num2Bits(k) iff 2^k-1 <= p/2 for the curve, for ALL integers k. Counterexamples are replayed through the real parser, lifter and passes.",
    note=TB + "Oracle primes are the documented scalar field orders; the threshold K(p) is computed with exact integers. The value knowledge attached to size arguments is assumed sound (C06). Outside: non-ASCII curve names, clap's own parsing.",
